@@ -112,14 +112,19 @@ def program(rep, index):
               "leaves first": ["pub/server", "net/server", "net/client", "pub", "net", "map", ""]}
     baselines = {}
     for oname, order in orders.items():
-        outs = run_program(session, program_tree, order=order, runs=2)
+        # the output directory is pre-populated with unknown contents in the first evaluation (every path of it
+        # explored); the other enumeration orders write into a fresh directory
+        outs = run_program(session, program_tree, order=order, runs=2, fresh_output=(oname != "as enumerated"))
         rep.count("program evaluations", len(outs))
         # P8: the paths of one evaluation differ only in what the output directory held beforehand
         groups = {}
         for o in outs:
             if not o.rejected:
                 # like with like: the same symbol assumptions, whatever the output directory held
-                k = tuple(x for x in _assumptions(o.path()) if "the output directory already holds" not in x)
+                a = _assumptions(o.path())
+                if any("hold exactly what this run writes=T" in x for x in a):
+                    continue  # whatever is not rewritten on this path is already what a fresh run would write
+                k = tuple(x for x in a if "the output directory already holds" not in x and "the files already there" not in x)
                 groups.setdefault(k, []).append(o)
         for done in groups.values():
             if len(done) < 2:
@@ -171,7 +176,7 @@ def program(rep, index):
     witness = None
     base = None
     for mode in ("insertion", "reversed", "rotated"):
-        for o in run_program(session, program_tree, order=dirs, runs=1, set_order=mode):
+        for o in run_program(session, program_tree, order=dirs, runs=1, set_order=mode, fresh_output=True):
             if o.rejected:
                 continue
             files = {f["path"]: f["content"] for f in o.value[0].files}
